@@ -26,7 +26,7 @@ PROPERTY = 'C03'
 TECHNIQUE = 'symbolic execution of the real SuperNet hard forward + export on z3-real selection coefficients and inputs; one path per winner tuple; equivalence and module-tree obligations per path'
 FUNCTIONS_ENCODED = ['SuperNetCombiner.forward/sample_alpha_sm/best_layer_index', 'supernet/graph.py convert(export)/export_graph', 'SuperNet.export/update_softmax_options',
                      'link_combiners_to_branches (natively at construction)']
-BOUNDS = {'quick': 'S(n, kind): n in {2,3,4} x kinds {conv, seq, user, userfn, identity}, n=11 and n=12 (conv), 2 blocks, block used twice; all winner tuples by forking',
+BOUNDS = {'quick': 'S(n, kind): n in {2,3,4} x kinds {conv, seq, user, userfn, identity}, n=11 and n=12 (conv), 2 blocks, block used twice; all winner tuples by forking; a choice block nested in a branch of another block (inner block as the last / inner element of an nn.Sequential), n in {2,3}',
           'thorough': 'n = 2..12 for every kind incl. useradd and mix, 1..3 blocks, block used twice'}
 OUTSIDE = ['choice blocks nested more than one level deep', 'float32 round-off (exact arithmetic)', 'ties are covered by the `ties` programs only (n <= 4 quick, <= 5 thorough); the other programs assume pairwise distinct coefficients']
 ASSUMPTIONS = ['coefficients pairwise distinct except in the `ties` programs, where the maximum of at least one block is attained twice; torch.argmax returns the first maximal index (CPU behaviour)', 'weights: generic dyadic values (selection does not depend on them)']
